@@ -807,6 +807,73 @@ func (c *Ctx) retentionCancel(rule string) {
 		})
 	}
 	r.Floor(rule, "blocking operations in the scanner", nBlock, 1)
+	// the scan is stopped by its visitor returning false: both stores' VisitMailboxes must then
+	// end the whole walk — a `break` out of one directory level goes on calling the visitor for
+	// every remaining mailbox, and Join (hence shutdown) waits for all of them
+	for _, rel := range []string{"pkg/storage/mem", "pkg/storage/file"} {
+		vm := p.Method(rel, "Store", "VisitMailboxes")
+		if vm == nil {
+			continue
+		}
+		var vfns []*ssa.Function
+		for g := range p.SyncReach(vm) {
+			if eng.FuncPkgPath(g) == eng.FuncPkgPath(vm) {
+				vfns = append(vfns, g)
+			}
+		}
+		sortFuncs(vfns)
+		nV := 0
+		bad := ""
+		for _, g := range vfns {
+			g := g
+			eng.EachInstr(g, func(in ssa.Instruction) {
+				call, ok := in.(*ssa.Call)
+				if !ok || call.Call.IsInvoke() || eng.StaticCallee(call.Common()) != nil {
+					return
+				}
+				// the visitor: vm's function parameter, directly, bound to a helper's parameter,
+				// or captured by a callback
+				var prm *ssa.Parameter
+				switch v := call.Call.Value.(type) {
+				case *ssa.Parameter:
+					prm, _ = p.Actual(v).(*ssa.Parameter)
+				case *ssa.UnOp:
+					if cell := eng.CellOf(v.X); cell != nil {
+						if sts := eng.CellStores(cell); len(sts) == 1 {
+							prm, _ = sts[0].Val.(*ssa.Parameter)
+						}
+					}
+				}
+				if prm == nil || prm.Parent() != vm || !visitorSigOfType(prm.Type()) {
+					return
+				}
+				nV++
+				// edges on which the visitor's result is false
+				for _, b := range g.Blocks {
+					for k := 0; k < len(b.Succs) && len(b.Succs) == 2; k++ {
+						v, pol, ok := eng.CondTruth(b, k)
+						if !ok || pol || v != ssa.Value(call) {
+							continue
+						}
+						// within g: the visitor must not be called again
+						again := func(x ssa.Instruction) bool { return x == in }
+						if eng.BlockReaches(b.Succs[k], again, nil) != nil {
+							bad = "after the visitor returned false at " + p.InstrPos(in) + " the walk in " + shortFn(g) + " can call it again (the stop only leaves an inner loop)"
+						}
+					}
+				}
+			})
+		}
+		cons := "visitor-stop@" + shortFn(vm)
+		switch {
+		case nV == 0:
+			r.Undecided(rule, cons, p.Pos(vm.Pos()), "visitor call not found")
+		case bad != "":
+			r.Bad(rule, cons, p.Pos(vm.Pos()), "%s: a retention scan that was told to stop (shutdown) still visits, and purges from, every remaining mailbox, and RetentionScanner.Join blocks until it is through", bad)
+		default:
+			r.Ok(rule, cons, p.Pos(vm.Pos()), "once the visitor returns false it is not called again")
+		}
+	}
 	// every exit of Start closes retentionShutdown
 	isClose := func(in ssa.Instruction) bool {
 		call, ok := in.(*ssa.Call)
@@ -961,6 +1028,19 @@ func reachesSync(fn, target *ssa.Function) bool {
 func visitorSig(fn *ssa.Function) bool {
 	sig := fn.Signature
 	if sig.Results().Len() != 1 || sig.Params().Len() != 1 {
+		return false
+	}
+	if b, ok := sig.Results().At(0).Type().Underlying().(*types.Basic); !ok || b.Kind() != types.Bool {
+		return false
+	}
+	_, isSlice := sig.Params().At(0).Type().Underlying().(*types.Slice)
+	return isSlice
+}
+
+// visitorSigOfType: func([]T) bool.
+func visitorSigOfType(t types.Type) bool {
+	sig, ok := t.Underlying().(*types.Signature)
+	if !ok || sig.Results().Len() != 1 || sig.Params().Len() != 1 {
 		return false
 	}
 	if b, ok := sig.Results().At(0).Type().Underlying().(*types.Basic); !ok || b.Kind() != types.Bool {
